@@ -149,7 +149,7 @@ func (e *fnEnc) evalSpec(x Expr, env *specEnv) SVal {
 		return SVal{t: bigLit(bi), lit: bi}
 	case *EStr:
 		if e.strAbstract {
-			return SVal{t: e.declare(fmt.Sprintf("astr.%q", x.Val), SAStr), typ: types.Typ[types.String]}
+			return SVal{t: e.astrLit(x.Val), typ: types.Typ[types.String]}
 		}
 		return SVal{t: e.strLit(x.Val), typ: types.Typ[types.String]}
 	case *EIdent:
@@ -362,7 +362,7 @@ func (e *fnEnc) constSVal(c *types.Const) SVal {
 		return SVal{t: boolLit(constant.BoolVal(c.Val())), typ: c.Type()}
 	case constant.String:
 		if s == SAStr {
-			return SVal{t: e.declare(fmt.Sprintf("astr.%q", constant.StringVal(c.Val())), SAStr), typ: c.Type()}
+			return SVal{t: e.astrLit(constant.StringVal(c.Val())), typ: c.Type()}
 		}
 		return SVal{t: e.strLit(constant.StringVal(c.Val())), typ: c.Type()}
 	case constant.Int:
@@ -408,7 +408,7 @@ func (e *fnEnc) selectField(base SVal, name string, env *specEnv, what string) S
 		if isPtr {
 			if f.embStruct {
 				// pointer to the embedded struct
-				return SVal{t: app(SInt, e.embFun(si, i), base.t), typ: types.NewPointer(f.typ)}
+				return SVal{t: e.embApp(si, i, base.t), typ: types.NewPointer(f.typ)}
 			}
 			return SVal{t: e.loadField(env.st, si, base.t, i), typ: f.typ}
 		}
@@ -771,6 +771,19 @@ func (e *fnEnc) evalCall(x *ECall, env *specEnv) SVal {
 			r = ifPtr(a.t)
 		}
 		return SVal{t: le(r, env.st.alloc)}
+	case "lexcmp":
+		need(2)
+		a := args()
+		return SVal{t: e.strCompare(a[0].t, a[1].t)}
+	case "bytesStr":
+		need(1)
+		a := args()[0]
+		if e.strAbstract {
+			return SVal{t: e.abytes(env.st, a.t), typ: types.Typ[types.String]}
+		}
+		comp, cs := e.elemComp(SInt)
+		arr := sel(e.heapGet(env.st, comp, cs), slBase(a.t), ArrayOf(SInt, SInt))
+		return SVal{t: app(SStr, "mk-str", arr, slOff(a.t), slLen(a.t)), typ: types.Typ[types.String]}
 	case "tagOf":
 		need(1)
 		return SVal{t: ifTag(args()[0].t)}
